@@ -242,6 +242,15 @@ Definition valid_ed (c : cfg) (w : word) (ex : list nat) (k : ed) : Prop :=
   | ESwap i => k_swap c = true /\ S i < length w /\ ~ In i ex /\ ~ In (S i) ex
   end.
 
+(** length of the new word [n'] from the length of the old one [n] *)
+Definition len_spec (k : ed) (n n' : nat) : Prop :=
+  match k with
+  | ESame | ESwap _ => n' = n
+  | EIns _ e => n' = n + length e
+  | EDel _ => S n' = n
+  | ERep _ e => S n' = n + length e
+  end.
+
 (** * Executable statement of the property, evaluated on implementation outputs.
     It does not use the context lookup, the can_delete/can_swap predicates, the
     weights or the adjacency rule for insertions: only what the property says. *)
